@@ -1,9 +1,11 @@
 /-
 C07 - results depend only on configuration and seed, not on call order or schedule.
 
-Models: Model/Config.lean (the configuration record of abstract_solver.py, one function per `Set*`, and the
-footprint table `writes / reads / fin`), Model/Schedule.lean (DE2 with an arbitrary evaluation order of the map,
-a run as a function of the configuration, ensemble member schedules), on top of Model/Solver.lean.
+Models: Model/Config.lean (the configuration record of abstract_solver.py, one function per `Set*`, the
+footprint table `writes / reads / fin`, and the deferred decoration `bootstrap` = what the next `Step` does to a
+re-configured solver), Model/Schedule.lean (DE2 with an arbitrary evaluation order of the map, mutable work items
+and objectives that write to their argument, a run as a function of the configuration, ensemble member schedules),
+on top of Model/Solver.lean.
 
 All statements are for ALL configurations, argument values, random streams `u`, cost / penalty / constraints
 functions, trial vectors (strategies), populations, numbers of generations, evaluation orders and schedules.
@@ -64,11 +66,61 @@ theorem rng_consumer_amount (u : Nat → R) (s : Cfg R) (mn mx : Option (List R)
     (apply u s (.setRandomInitialPoints mn mx)).1.pop.rngPos = s.pop.rngPos + s.pop.population.length * s.nDim := by
   simp [apply, hb, fin, own, newPopRandom, hr]
 
+/-! ### re-configuration of a LIVE solver: `Set*` = record + `Finalize`, decoration deferred to the next `Step` -/
+
+/-- **A `Set*` call never decorates the objective and never touches the random source** (the two
+initial-points methods aside), on a live solver as on any other: the number of executions of
+`_decorate_objective` is unchanged, the population and the position in the random stream are unchanged, and a
+finalising call that does not raise leaves the solver not live - which is what makes the NEXT `Step` re-decorate
+(`_bootstrap_objective`).  `_update_objective` is `Finalize()`, not "trigger immediately". -/
+theorem setter_defers_decoration (u : Nat → R) (s : Cfg R) (op : Op R) :
+    (apply u s op).1.ndec = s.ndec ∧
+    (consumesRng op = false → (apply u s op).1.pop = s.pop) ∧
+    (blocked s.kind op = false → fin s.kind op = true → (apply u s op).2 = false → (apply u s op).1.live = false) ∧
+    ((apply u s op).1.live = true → s.live = true) :=
+  ⟨apply_ndec u s op, apply_pop u s op, apply_fin_live u s op, apply_live u s op⟩
+
+/-- **However many `Set*` calls are made between two iterations, in whatever order, the next `Step` decorates at
+most once** - and exactly once as soon as one of the calls finalised; the block itself decorates never and (without
+initial-points calls) draws no random number and leaves the population alone. -/
+theorem live_reconfig_decorates_once (u : Nat → R) (s : Cfg R) (l : List (Op R)) (c : Nat) :
+    (cfgAfter u s l).ndec = s.ndec ∧
+    (bootstrap u (cfgAfter u s l) c).ndec ≤ s.ndec + 1 ∧
+    ((∀ op ∈ l, consumesRng op = false) → (cfgAfter u s l).pop = s.pop) ∧
+    (∀ (l1 l2 : List (Op R)) (op : Op R), l = l1 ++ op :: l2 → blocked s.kind op = false → fin s.kind op = true →
+      (apply u (cfgAfter u s l1) op).2 = false → (bootstrap u (cfgAfter u s l) c).ndec = s.ndec + 1) := by
+  refine ⟨cfgAfter_ndec u l s, ?_, cfgAfter_pop u l s, ?_⟩
+  · rw [bootstrap_ndec, cfgAfter_ndec]
+    split <;> omega
+  · intro l1 l2 op hl hb hf hr
+    have hk : (cfgAfter u s l1).kind = s.kind := cfgAfter_kind u l1 s
+    have h1 : (apply u (cfgAfter u s l1) op).1.live = false :=
+      apply_fin_live u _ op (by rw [hk]; exact hb) (by rw [hk]; exact hf) hr
+    have h2 : (cfgAfter u s l).live = false := by
+      cases h : (cfgAfter u s l).live
+      · rfl
+      · have e : cfgAfter u s l = cfgAfter u (apply u (cfgAfter u s l1) op).1 l2 := by
+          rw [hl]; simp [cfgAfter, List.foldl_append]
+        rw [e] at h
+        rw [cfgAfter_live u l2 _ h] at h1
+        cases h1
+    rw [bootstrap_ndec, cfgAfter_ndec, h2]
+    simp
+
+/-- **Permuted re-configuration of a live solver**: the solver (live or not, after any number of iterations) is
+re-configured by pairwise independent `Set*` calls in two different orders; the state in which the next `Step`
+starts iterating - after its one deferred decoration, which under strict ranges clips the population and draws
+random numbers - is the same: every attribute, the population, the position in the random stream. -/
+theorem live_reconfig_perm (u : Nat → R) (s : Cfg R) (l l' : List (Op R)) (c : Nat) (hp : l.Perm l')
+    (hi : l.Pairwise (fun a b => Independent s.pl s.kind a b = true)) :
+    bootstrap u (cfgAfter u s l) c = bootstrap u (cfgAfter u s l') c := by
+  rw [(config_perm u s l l' hp hi).1]
+
 /-! ### the table is tight where the code is order dependent (witnesses over `Int`) -/
 
 /-- a fresh 2-dimensional solver of the given kind, with a 3-member population -/
 def ex (k : Kind) (live : Bool) : Cfg Int :=
-  { kind := k, nDim := 2, dmin := [-1000, -1000], dmax := [1000, 1000], best := 77, fcalls := 5,
+  { kind := k, nDim := 2, dmin := [-1000, -1000], dmax := [1000, 1000], best := 77, fcalls := 5, bestIdx := 0,
     reducer := none, penalty := none, constraints := none, term := {}, stepmon := { id := 0, null := false, recs := [10, 11] },
     evalmon := nullMon, hist := {}, ranges := {}, limits := {}, cost := {}, live := live, save := {}, mapc := {},
     sigint := false, pop := { population := [[0, 0], [0, 0], [0, 0]], rngPos := 0 } }
@@ -101,6 +153,41 @@ theorem two_rng_consumers_witness :
     Independent false .abstract a b = false ∧
     (cfgAfter exU (ex .abstract false) [a, b]).pop.population ≠ (cfgAfter exU (ex .abstract false) [b, a]).pop.population := by
   decide
+
+/-- a LIVE differential-evolution solver after two generations (cost stored and decorated), three members -/
+def exLive : Cfg Int :=
+  { ex .de true with stepmon := { id := 0, null := false, recs := [10, 11, 12] }, cost := { raw := some 1, decorated := true },
+                     pop := { population := [[0, 0], [7, 2], [3, 9]], rngPos := 0 }, bestIdx := 1, ndec := 1 }
+
+/-- the same solver with strict ranges `[0, 10]^2` already in force -/
+def exLiveBoxed : Cfg Int :=
+  { exLive with ranges := { useStrict := true, smin := [0, 0], smax := [10, 10] } }
+
+/-- **why the decoration is deferred**: `SetStrictRanges` and `SetPenalty` are independent and commute on a live
+solver (no random number drawn, population untouched, ONE decoration at the next `Step`); had `_update_objective`
+decorated at once ("trigger immediately", the dormant branch) the two orders would leave the random source at
+different positions and different populations - the trajectory would depend on the order of the `Set*` calls -/
+theorem eager_decoration_witness :
+    let a : Op Int := .setStrictRanges false (some [1, 1]) (some [5, 5]) none none
+    let b : Op Int := .setPenalty (some 2)
+    Independent exLive.pl exLive.kind a b = true ∧
+    cfgAfter exU exLive [a, b] = cfgAfter exU exLive [b, a] ∧
+    rngConsumed exU exLive [a, b] = 0 ∧ (cfgAfter exU exLive [a, b]).ndec = 1 ∧
+    (bootstrap exU (cfgAfter exU exLive [a, b]) 1).ndec = 2 ∧
+    (bootstrap exU (cfgAfter exU exLive [a, b]) 1).pop.rngPos = 2 ∧
+    ((applyEager exU (applyEager exU exLive a).1 b).1.pop.rngPos = 4 ∧
+     (applyEager exU (applyEager exU exLive b).1 a).1.pop.rngPos = 2) ∧
+    -- with strict ranges already in force the two orders draw equally often, but clip with different draws
+    (applyEager exU (applyEager exU exLiveBoxed a).1 b).1.pop.population ≠
+      (applyEager exU (applyEager exU exLiveBoxed b).1 a).1.pop.population ∧
+    cfgAfter exU exLiveBoxed [a, b] = cfgAfter exU exLiveBoxed [b, a] := by
+  refine ⟨by decide, ?_, by decide, by decide, by decide, by decide, by decide, by decide, ?_⟩
+  · exact (config_perm exU exLive _ _ (List.Perm.swap _ _ _) (by decide)).1
+  · exact (config_perm exU exLiveBoxed _ _ (List.Perm.swap _ _ _) (by decide)).1
+
+example : (bootstrap exU (cfgAfter exU exLive
+      [.setStrictRanges false (some [1, 1]) (some [5, 5]) none none, .setPenalty (some 2)]) 1).pop.population
+    = [[1, 1], [5, 2], [3, 5]] := by decide
 
 /-- non-vacuity: the usual configuration phase - ranges, constraints, penalty, limits, termination, both monitors,
 reducer, initial points, mapper - is pairwise independent on each kind of solver (so `config_perm` applies to all
@@ -207,6 +294,67 @@ theorem de2_run_map_independent [LT E] [DecidableLT E] {D : Type} (o : Obj X E)
       · intro g hg'; exact hg g (by simp [hg'])
       · simpa using hlen'
       · intro π'' h; exact ho' π'' (by simp [h])
+
+/-! ### objectives that write to their argument, maps that hand out copies -/
+
+/-- **The stored population never depends on what the evaluator does to its argument, nor on whether the map hands
+the worker the trial vector itself or a copy of it.**  The user's cost and penalty are arbitrary PROCEDURES on a
+mutable vector (value + the contents they leave behind: abs-fold, sort, clamp, ...); `sh i` says whether work item
+`i` reaches the worker as the object itself (in-process map) or as a copy (forked process, pickling, deep copy).
+Because `wrap_penalty` evaluates on `_x = x[:]`, the DE2 step on mutable work items is the step of `step2With` on
+the objective record of the procedures - for every sharing discipline and evaluation order - hence (with
+`de2_map_independent`) population, energies, best and step record are those of the in-order in-process map, and
+the evaluated points are the same up to order. -/
+theorem de2_evaluator_effect_free [LT E] [DecidableLT E] (K : X → X) (inBox : X → Bool) (useRange : Bool) (top : E)
+    (add : E → E → E) (cost pen : Proc X E) (sh sh' : Nat → Bool) (π π' : List Nat) (trials : List X) (s : DE X E)
+    (hπ : π.Perm (List.range trials.length)) (hπ' : π'.Perm (List.range trials.length)) :
+    step2Proc K inBox useRange top add cost pen sh π trials s =
+      step2With (objOfProcs K inBox useRange top add cost pen) π trials s ∧
+    obs (step2Proc K inBox useRange top add cost pen sh π trials s) =
+      obs (step2Proc K inBox useRange top add cost pen sh' π' trials s) ∧
+    obs (step2Proc K inBox useRange top add cost pen sh π trials s) =
+      obs (DE.step2 (objOfProcs K inBox useRange top add cost pen) trials s) ∧
+    (step2Proc K inBox useRange top add cost pen sh π trials s).log.Perm
+      (step2Proc K inBox useRange top add cost pen sh' π' trials s).log := by
+  have h1 := step2Proc_eq K inBox useRange top add cost pen sh π trials s
+  have h2 := step2Proc_eq K inBox useRange top add cost pen sh' π' trials s
+  have m1 := de2_map_independent (objOfProcs K inBox useRange top add cost pen) π trials s hπ
+  have m2 := de2_map_independent (objOfProcs K inBox useRange top add cost pen) π' trials s hπ'
+  refine ⟨h1, ?_, ?_, ?_⟩
+  · rw [h1, h2, m1.1, m2.1]
+  · rw [h1, m1.1]
+  · rw [h1, h2]; exact m1.2.1.trans m2.2.1.symm
+
+/-- whole runs with a writing objective: generation after generation, each under its own evaluation order and its
+own sharing discipline, the run is the run of `run2With` (to which `de2_run_map_independent` applies) -/
+theorem de2_run_effect_free [LT E] [DecidableLT E] {D : Type} (K : X → X) (inBox : X → Bool) (useRange : Bool)
+    (top : E) (add : E → E → E) (cost pen : Proc X E) (strat : List X → List E → X → D → List X) :
+    ∀ (gens : List (D × List Nat × (Nat → Bool))) (s : DE X E),
+      gens.foldl (fun s g => step2Proc K inBox useRange top add cost pen g.2.2 g.2.1 (strat s.pop s.popE s.best g.1) s) s =
+        run2With (objOfProcs K inBox useRange top add cost pen) strat (gens.map fun g => (g.1, g.2.1)) s := by
+  intro gens
+  induction gens with
+  | nil => intro s; rfl
+  | cons g gens ih =>
+    intro s
+    simp only [List.foldl_cons, List.map_cons, run2With]
+    rw [step2Proc_eq, ih]
+
+/-- a cost that folds its argument onto the non-negative axis in place, squared distance to 1 -/
+def exFold : Proc Int Int := fun x => ((x.natAbs - 1) * (x.natAbs - 1), x.natAbs)
+
+/-- **what the defensive copy is there for**: with `wrap_penalty` calling cost and penalty on the caller's own
+vector, an in-process map stores the FOLDED trial in the population while a copying map stores the trial itself -
+the trajectory would depend on the map; with the pinned `wrap_penalty` both store the trial -/
+theorem de2_uncopied_witness :
+    let s : DE Int Int := { pop := [5, 4], popE := [16, 9], best := 4, bestE := 9, log := [], stepLog := [] }
+    let logOf : Int → Option (Int × Int) := fun y => some (y, (exFold y).1)
+    let pure0 : Proc Int Int := fun x => (0, x)
+    (step2ProcWith (wrapPenaltyNoCopyP (· + ·) exFold pure0) logOf id 1000 (fun _ => true) [0, 1] [-3, 2] s).pop = [3, 2] ∧
+    (step2ProcWith (wrapPenaltyNoCopyP (· + ·) exFold pure0) logOf id 1000 (fun _ => false) [0, 1] [-3, 2] s).pop = [-3, 2] ∧
+    (step2Proc id (fun _ => true) false 1000 (· + ·) exFold pure0 (fun _ => true) [1, 0] [-3, 2] s).pop = [-3, 2] ∧
+    (step2Proc id (fun _ => true) false 1000 (· + ·) exFold pure0 (fun _ => false) [0, 1] [-3, 2] s).pop = [-3, 2] := by
+  decide
 
 /-- the evaluation counter of DE2 without an evaluation monitor (`+= len(trialEnergy) - isinf(trialEnergy).sum()`,
 l.570-571) counts exactly the evaluations the monitor would have recorded, provided no evaluated point has an
